@@ -32,7 +32,7 @@ KNOWN_REPEATED = "C16-repeated-tag"
 def budget(tier):
     if tier == "quick":
         return {"examples": 900, "shards": 2}
-    return {"examples": 5000, "shards": 16}
+    return {"examples": 9000, "shards": 16}
 
 
 TAGNAMES = ["NM", "AS", "xx", "Xy", "z9", "dv", "rl", "s1", "tp", "cm", "ab"]
